@@ -1,6 +1,7 @@
 """C04 check accepts exactly the well-formed journals (journal/check Checker, journal.Builder, Processor.Process)"""
 PID = "C04"
 THEOREM_FILE = "Properties/C04.v"
+EXTRA_THEOREM_FILES = ["Properties/C04w.v"]
 NEEDS_KNUT = True
 
 RULE = ("lifecycle-stressing journals: (70%) a day-by-day simulation of the checker's rules over 2-6 accounts (assets, "
@@ -17,17 +18,29 @@ RULE = ("lifecycle-stressing journals: (70%) a day-by-day simulation of the chec
         "(repaired checker) must give the same verdict, error kind and account; every 4th file also through `knut "
         "balance`, every 8th through `knut print` (exit class = check's).  thorough adds all 1 086 007 multisets of at "
         "most 5 directives over {Assets:A, Income:I} x CHF x 3 days x amounts {0,1,-1}.  Non-trivial: the journal has "
-        "an open, a transaction and an assertion or close; distinct by input.")
+        "an open, a transaction and an assertion or close; distinct by input.  `knut check --write FILE` (op C04.write, "
+        "400 journals in quick, 4 x 5000 in thorough): 50% life-cycle journals (30% of them with one of the mutations above, "
+        "30% with an added day that has a price and nothing else), 30% journals of the shared generator (prices, accruals, "
+        "many decimals, Unicode account names, closes and assertions; 25% with a missing open or a wrong assertion), 20% the "
+        "targeted constructions: stdout bytes and exit class must equal Model/CheckWrite.v check_write_cmd; on the "
+        "binary's own output the extracted specification decides: the command fails exactly on the ill-formed journals "
+        "(wellformed_b) and then prints nothing; the text parses (model's parser) to balance assertions only; the journal "
+        "extended by them is accepted by check_cmd_fixed; Spec.CheckWriteSpec.write_spec_b (dates ascending and of the "
+        "journal, lines strictly ordered by account and commodity, every line a live position with the running quantity of "
+        "that day's end, every live position of every day asserted).")
 TRUSTED_BASE = [
     "Coq 8.16.1 kernel, vm_compute (witnesses of the *_refuted theorems and examples)",
     "extraction (ExtrOcamlBasic only), OCaml 4.13.1, drv_journal.ml/drv_c04.ml (decoding of the case line, substring tests on the diagnostic)",
     "harness journal.go/knutrun.go/c04.go (generator, rendering of the structured journal as knut text, subprocess runner)",
     "Model/Journal.v, Model/Check.v, Model/Ledger.v model lib/journal and lib/journal/check by hand; tied to the code only by this correspondence",
     "knut's parser is not in the loop of the theorem: model and specification start from structured directives (the parser is C07's)",
+    "C04.write: harness/c04w.go, drv_c04w.ml; Model/CheckWrite.v models Checker.dayEnd, checkRunner.writeFile and (Model/JPrinter.v) "
+    "journal.Print by hand; the binary's text is read back with the model's parser (Model/Parser.v, ToModel.v: C07/C09's tie)",
 ]
 ASSUMPTIONS = ["account segments contain no colon and no NUL byte, first segment is an account type (what the parser "
                "and registry accept; hypothesis `syntactic` of C04_iff)",
-               "the journal is one file (include trees and arrival order are C05/C06)"]
+               "the journal is one file (include trees and arrival order are C05/C06)",
+               "check --write: --no-check (Checker.NoCheck) is not modelled"]
 TECHNIQUE = ("Coq proof: refinement between the checker's state (open list, sorted quantity map) and a stateless "
              "specification over the canonical event sequence (open_after, quantity as functions of the preceding events), "
              "decimal equality as an equivalence compatible with addition; + exit-status/diagnostic correspondence and the "
@@ -37,9 +50,19 @@ LEVEL_TEXT = ("C04_iff (Coq): for every syntactically valid list of directives t
               "C04_builder_canonical: the builder's days are the canonical order; C04_names_offender: an error carries the "
               "account and a true reason of the first offending event; C04_order_irrelevant: acceptance is invariant under "
               "permutations of the directive list; C04_zero_refuted / C04_nonAL_refuted: the pinned "
-              "Checker.balance rejects well-formed journals (two defects).")
-LEVEL_NOTE = ("Trusted: kernel, extraction, harness; the model-to-code tie is sampled (quick ~1500 journals, thorough 200k + "
-              "exhaustive small space). The theorem is about the repaired checker; against the pinned code the check reports "
+              "Checker.balance rejects well-formed journals (two defects).  check --write (Properties/C04w.v): "
+              "C04_write_verdict / C04_write_fails_silently: it succeeds exactly when check does, fails with the same error and "
+              "then has no output; C04_write_accepted: the journal extended by the printed assertions is accepted; "
+              "C04_write_complete: the assertions are, per day of the journal in date order, all live asset/liability "
+              "positions (booked after the account's last close; zero quantities and unchanged positions included, also on days "
+              "with prices only), each once, ordered by account and commodity, with the running quantity of that day's end "
+              "(write_spec; C04_write_spec_b_spec: = the executable form the check evaluates); C04_write_order_irrelevant: "
+              "permuting the directives changes neither the assertions nor the printed bytes (C04_write_arrival, C04_write_map_order: "
+              "nor do file arrival order or the enumeration of the Go map); C04_write_text_accepted: for an accepted journal as the "
+              "parser delivers it, the printed text is read back by the model's parser as assertions only (the collected ones, "
+              "quantities re-read) and the journal extended by them is accepted.")
+LEVEL_NOTE = ("Trusted: kernel, extraction, harness; the model-to-code tie is sampled (quick ~1500 journals + 400 through check "
+              "--write, thorough 200k + 20k + exhaustive small space). The theorem is about the repaired checker; against the pinned code the check reports "
               "the two defects as violations. C04_order_irrelevant: well-formedness is invariant under every permutation of the "
               "directive list (which directive is reported first is not).")
 
@@ -53,14 +76,15 @@ KINDS = {
 
 def plan(tier, seed):
     if tier == "quick":
-        return [("C04", seed, 1500, [])]
+        return [("C04", seed, 1500, []), ("C04w", seed, 400, [])]
     p = [("C04", seed + k, 20000, []) for k in range(10)]
+    p += [("C04w", seed + k, 5000, []) for k in range(4)]
     p += [("C04x", seed, 0, ["5", str(k), "8"]) for k in range(8)]
     return p
 
 
 def search_plan(seed):
-    return [("C04", seed + 100 + k, 3000, []) for k in range(3)]
+    return [("C04", seed + 100 + k, 3000, []) for k in range(3)] + [("C04w", seed + 100, 2000, [])]
 
 
 def _unesc(s):
@@ -100,6 +124,16 @@ def distribution(cases):
          "diagnostic": {}}
     for c in cases:
         d["ops"][c.op] = d["ops"].get(c.op, 0) + 1
+        if c.op == "C04.write":
+            w = d.setdefault("write", {"printed": 0, "empty": 0, "failed": 0, "class": {}, "assertions": 0})
+            cfg = dict(kv.split("=", 1) for kv in c.input.split(" | ", 1)[0].split())
+            w["class"][cfg["cls"]] = w["class"].get(cfg["cls"], 0) + 1
+            if c.observed.startswith("OK "):
+                w["printed" if len(c.observed) > 3 else "empty"] += 1
+                w["assertions"] += c.observed.count(" balance")
+            else:
+                w["failed"] += 1
+            continue
         if c.op != "C04.check":
             continue
         cfg = dict(kv.split("=", 1) for kv in c.input.split(" | ", 1)[0].split())
